@@ -5,6 +5,7 @@ from common import *
 from runner import Script, Cfg
 
 ID = "C19"
+NO_GAPS = True    # scripts are sets of independent frames (one payload over many transports and ports), not histories
 THEOREMS = ["C19_udp_context_free", "C19_tcp_first_context_free", "C19_answered_context_free",
             "C19_constant_responders", "C19_rpc_endpoint_free", "C19_stun_shape", "C19_dns_prefix",
             "C19_frames_same_payload"]
